@@ -63,6 +63,7 @@ class Ctx:
         self.path_checks = []
         self.model = None
         self.decided = {}
+        self.path_kinds = []
 
     # ---- symbolic inputs (concrete values instead when re-running concolically)
     def _declare(self, name, sort, kind, extra=None):
@@ -245,6 +246,7 @@ class Ctx:
         known: {finding_id: class_predicate}: the finding's input class is assumed away first; the class itself is
         queried separately and reported as KNOWN-FINDING when still satisfiable."""
         self.reach(label)
+        self.path_kinds.append('smt')
         self.checks += 1
         neg = z3.simplify(z3.Not(to_bool_term(cond)))
         if z3.is_false(neg):
@@ -278,6 +280,7 @@ class Ctx:
 
     def check_concrete(self, ok, label, info=None, known_id=None):
         """Assertion whose condition is already concrete on this path (the path condition carries the quantification)."""
+        self.path_kinds.append('concrete')
         self.reach(label)
         self.checks += 1
         smt.STATS.decide += 1
@@ -344,9 +347,17 @@ def explore(fn, max_paths=20000, ctx=None, time_budget_s=None, concolic=None, **
             ctx.new_path(prefix)
             ctx.paths += 1
             try:
+                q0 = smt.STATS.feas + smt.STATS.decide
                 fn(ctx)
                 if ctx.decisions:
                     ctx.nontrivial_paths += 1
+                    if (smt.STATS.feas + smt.STATS.decide == q0 or all(k == 'concrete' for k in ctx.path_kinds)) \
+                            and (ctx.paths <= 2000 or ctx.paths % 16 == 0):
+                        # a path steered only by choice variables whose feasibility is known by construction: let the
+                        # solver confirm the assignment (every path up to 2000 per case, then every 16th)
+                        r = smt.confirm_choices(ctx.pc, ctx.feas_timeout_ms)
+                        if r == 'unsat':
+                            ctx.unsupported.append('internal: explored path has an unsatisfiable path condition')
                 if len(ctx.samples) < 5:
                     ctx.samples.append({'decisions': [b for b, _ in ctx.decisions],
                                         'pc': [str(c)[:160] for c in ctx.pc[:6]],
